@@ -1,5 +1,7 @@
 SPECIFICATION Spec
 CONSTANTS
+    Stalls = FALSE
+    ClosesSource = TRUE
     MaxUnits = 2
     MaxEnv = 4
 INVARIANTS EmitScript
